@@ -1,5 +1,6 @@
 import Mutagen.Proofs.Reconcile
 import Mutagen.Proofs.Reach
+import Mutagen.Proofs.History
 /-!
 # C01 — two-way-safe synchronization never loses a modification
 
@@ -121,7 +122,80 @@ theorem twoWaySafe_conflict_valid (A alpha beta : Option Entry) (rel : Path)
   have e := effAnc_eq_getPath rel A alpha beta hA hal hbe hpα hpβ hr
   exact twoWaySafe_conflict A alpha beta rel hr (e ▸ hα) (e ▸ hβ)
 
--- TODO theorem twoWaySafe_history (DESIGN §8 C01 (4)): induction over a history of (edit*, cycle) steps
---   using the C04/C05 ancestor update; needs the C04 fixpoint theorem.
+/-! ## Histories (edit* ; cycle)*
+
+`HState` = (last-synchronized tree, alpha, beta); a history is a list of steps
+`editAlpha t` / `editBeta t` (the user replaces an endpoint's content by an
+arbitrary tree) and `cycle` (a fully applied two-way-safe cycle: `Reconcile`,
+both change lists applied exactly, the ancestor updated as in
+`controller.go:synchronize` with ideal results); `hrun` runs a history. -/
+
+/-- **No cycle of any history loses a modification**: after an arbitrary
+history `pre` of edits and cycles from an arbitrary state, the next cycle only
+deletes or replaces endpoint entries that the last-synchronized tree of that
+moment records identically (no hypothesis on any tree). -/
+theorem twoWaySafe_history_no_loss (s₀ : HState) (pre : List HStep) :
+    (∀ q, pget (hrun .twoWaySafe s₀ (pre ++ [.cycle])).alpha q ≠ pget (hrun .twoWaySafe s₀ pre).alpha q →
+      pget (hrun .twoWaySafe s₀ pre).alpha q = none ∨
+      pget (hrun .twoWaySafe s₀ pre).alpha q = pget (hrun .twoWaySafe s₀ pre).anc q) ∧
+    (∀ q, pget (hrun .twoWaySafe s₀ (pre ++ [.cycle])).beta q ≠ pget (hrun .twoWaySafe s₀ pre).beta q →
+      pget (hrun .twoWaySafe s₀ pre).beta q = none ∨
+      pget (hrun .twoWaySafe s₀ pre).beta q = pget (hrun .twoWaySafe s₀ pre).anc q) :=
+  history_no_loss s₀ pre
+
+/-- **What the last-synchronized tree means**: after a cycle on valid
+phantom-free endpoints it records, at every path outside the cycle's conflicts
+and outside unsynchronizable content, exactly the entry both endpoints now hold
+(uses the C04 fixpoint/convergence theorem). -/
+theorem twoWaySafe_cycle_records_synchronized (s : HState)
+    (hal : Valid s.alpha) (hbe : Valid s.beta) (hpα : onoPhantom s.alpha = true) (hpβ : onoPhantom s.beta = true) :
+    ∀ q, (∀ c ∈ (Reconcile s.anc s.alpha s.beta .twoWaySafe).conflicts, ¬ c.root <+: q) →
+      NoUnsyncAlong (cycleStep .twoWaySafe s).alpha q → NoUnsyncAlong (cycleStep .twoWaySafe s).beta q →
+      pget (cycleStep .twoWaySafe s).alpha q = pget (cycleStep .twoWaySafe s).anc q ∧
+      pget (cycleStep .twoWaySafe s).beta q = pget (cycleStep .twoWaySafe s).anc q :=
+  cycle_converges .twoWaySafe (Or.inl rfl) s hal hbe hpα hpβ
+
+/-- **Content modified since its last synchronization is never deleted or
+overwritten**: run any history `pre`, then a cycle (on valid phantom-free
+endpoints), then arbitrary edits of both endpoints, then the next cycle. At
+every path the first of the two cycles left synchronized, an entry that the
+edits created or modified is still there, unchanged, after the second cycle. -/
+theorem twoWaySafe_history (s₀ : HState) (pre : List HStep) (edits : List HStep)
+    (he : ∀ x ∈ edits, x.isEdit = true) (q : Path)
+    (hal : Valid (hrun .twoWaySafe s₀ pre).alpha) (hbe : Valid (hrun .twoWaySafe s₀ pre).beta)
+    (hpα : onoPhantom (hrun .twoWaySafe s₀ pre).alpha = true)
+    (hpβ : onoPhantom (hrun .twoWaySafe s₀ pre).beta = true)
+    (hq : ∀ c ∈ (Reconcile (hrun .twoWaySafe s₀ pre).anc (hrun .twoWaySafe s₀ pre).alpha
+        (hrun .twoWaySafe s₀ pre).beta .twoWaySafe).conflicts, ¬ c.root <+: q)
+    (h1 : NoUnsyncAlong (hrun .twoWaySafe s₀ (pre ++ [.cycle])).alpha q)
+    (h2 : NoUnsyncAlong (hrun .twoWaySafe s₀ (pre ++ [.cycle])).beta q) :
+    (pget (hrun .twoWaySafe s₀ (pre ++ [.cycle] ++ edits)).alpha q ≠ none →
+      pget (hrun .twoWaySafe s₀ (pre ++ [.cycle] ++ edits)).alpha q ≠
+        pget (hrun .twoWaySafe s₀ (pre ++ [.cycle])).alpha q →
+      pget (hrun .twoWaySafe s₀ (pre ++ [.cycle] ++ edits ++ [.cycle])).alpha q =
+        pget (hrun .twoWaySafe s₀ (pre ++ [.cycle] ++ edits)).alpha q) ∧
+    (pget (hrun .twoWaySafe s₀ (pre ++ [.cycle] ++ edits)).beta q ≠ none →
+      pget (hrun .twoWaySafe s₀ (pre ++ [.cycle] ++ edits)).beta q ≠
+        pget (hrun .twoWaySafe s₀ (pre ++ [.cycle])).beta q →
+      pget (hrun .twoWaySafe s₀ (pre ++ [.cycle] ++ edits ++ [.cycle])).beta q =
+        pget (hrun .twoWaySafe s₀ (pre ++ [.cycle] ++ edits)).beta q) := by
+  have e1 : hrun .twoWaySafe s₀ (pre ++ [.cycle]) = cycleStep .twoWaySafe (hrun .twoWaySafe s₀ pre) := by
+    simp [hrun, List.foldl_append, hstep]
+  have e2 : hrun .twoWaySafe s₀ (pre ++ [.cycle] ++ edits) =
+      hrun .twoWaySafe (cycleStep .twoWaySafe (hrun .twoWaySafe s₀ pre)) edits := by
+    simp [hrun, List.foldl_append, hstep]
+  have e3 : hrun .twoWaySafe s₀ (pre ++ [.cycle] ++ edits ++ [.cycle]) =
+      cycleStep .twoWaySafe (hrun .twoWaySafe (cycleStep .twoWaySafe (hrun .twoWaySafe s₀ pre)) edits) := by
+    simp [hrun, List.foldl_append, hstep]
+  rw [e1] at h1 h2
+  rw [e1, e2, e3]
+  exact modified_since_sync_survives (hrun .twoWaySafe s₀ pre) hal hbe hpα hpβ edits he q hq h1 h2
+
+-- TODO theorem twoWaySafe_history_general (DESIGN §8 C01 (4), arbitrary gaps): allow further cycles
+--   between the cycle that last synchronized `q` and the cycle under consideration (cycles in which `q`
+--   lies under a conflict root leave the ancestor's record at `q` unchanged or drop it), and discharge the
+--   validity hypotheses on the intermediate states from "every edit installs a valid phantom-free tree"
+--   (needs: exact application of a plan preserves `Valid` and `onoPhantom` of an endpoint tree — the
+--   path-wise validity machinery of `Proofs/AncestorUpdate` exists for synchronizable trees only).
 
 end Mutagen.Properties.C01
